@@ -53,10 +53,10 @@ func bev(op string, kv ...any) core.Event {
 	return e
 }
 func evFrr(p int, s string) core.Event { return bev("frr", "p", p, "s", s) }
-func evAdd(p int) core.Event            { return bev("add", "p", p) }
-func evAddOpt(p int) core.Event         { return bev("add", "p", p, "v", 1, "rx", 50, "tx", 70, "mult", 5) }
-func evRemove(p int) core.Event         { return bev("remove", "p", p) }
-func evAdv(q int) core.Event            { return bev("adv", "q", q) }
+func evAdd(p int) core.Event           { return bev("add", "p", p) }
+func evAddOpt(p int) core.Event        { return bev("add", "p", p, "v", 1, "rx", 50, "tx", 70, "mult", 5) }
+func evRemove(p int) core.Event        { return bev("remove", "p", p) }
+func evAdv(q int) core.Event           { return bev("adv", "q", q) }
 func evFail(which string, on bool) core.Event {
 	return bev("fail", "which", which, "on", on)
 }
@@ -88,6 +88,9 @@ func Catalogue(tier string) []core.System {
 			// the window between the status fetch and the critical section of refreshPeers
 			&BSystem{name: "gated1", NPeers: 1, Prestarted: true, Alphabet: []core.Event{
 				evAdd(1), evRemove(1), evFrr(1, "up"), evPollBegin, evPollEnd}},
+			// every session state FRR can report, seen by consecutive polls (callbacks for each pair of states)
+			&BSystem{name: "cb1", NPeers: 1, Prestarted: true, Alphabet: []core.Event{
+				evFrr(1, "down"), evFrr(1, "init"), evFrr(1, "up"), evFrr(1, "admin down"), evAdv(1)}},
 			conf1, hc2,
 		}
 	}
